@@ -280,7 +280,7 @@ def events(ops, states, upto, k, sp=None):
     """risk events that touched iterator k (k < 0: any) before op index `upto`, read off the plain-list run:
     E push while the iterator stood at the end, A other push, D delete by name/position, P pop, S shift,
     Q pop of the host the iterator stands on (it returned that host last), R own removal, M removal through another
-    iterator, U uniq/sort, N the iterator's last restart is a uniq/sort that left the list as it was while the
+    iterator, U uniq/sort, Z one of these mutations left the list EMPTY, N the iterator's last restart is a uniq/sort that left the list as it was while the
     iterator was not at the start; only events since the iterator's last (re)start"""
     ev = set()
     start = 0
@@ -297,6 +297,9 @@ def events(ops, states, upto, k, sp=None):
                     states[i - 1] is not None and states[i - 1][1].get(k, 0) != 0
     for i, o in enumerate(ops[start:upto], start):
         w = o.split()
+        if w[0] in ("it_remove", "delete", "delete_host", "delete_nth", "pop", "shift") and i > 0 and \
+           states[i] is not None and states[i - 1] is not None and states[i][0] == 0 and states[i - 1][0] > 0:
+            ev.add("Z")
         if w[0] == "it_remove":
             ev.add("R" if int(w[1]) == k else "M")
         elif w[0] in ("delete", "delete_host", "delete_nth"):
